@@ -233,12 +233,12 @@ int main(int argc, char** argv){
                 tsmSpace<3>(4, 1, 1, mFew, false, args, rep, pg);
                 tsmSpace<2>(4, 1, 2, mFew, false, args, rep, pg);
                 tsmSpace<1>(6, 2, 2, {MMixed}, false, args, rep, pg);
-                tsmSpace<3>(3, 2, 2, mFew, false, args, rep, pg);
-                tsmSpace<3>(5, 1, 1, {MMixed}, false, args, rep, pg);
-                tsmSpace<2>(3, 0, 3, {MMixed}, false, args, rep, pg);
-                tsmSpace<4>(2, 0, 2, {MMixed}, false, args, rep, pg);
-                tsmSpace<3>(2, 0, 0, mAll, true, args, rep, pg);
-                tsmSpace<1>(4, 0, 0, mAll, true, args, rep, pg);
+                tsmSpace<3>(3, 2, 2, {MMixed}, false, args, rep, pg, true);
+                tsmSpace<3>(5, 1, 1, {MMixed}, false, args, rep, pg, true);
+                tsmSpace<2>(3, 0, 1, {MMixed, MVaried}, false, args, rep, pg);
+                tsmSpace<4>(2, 0, 1, {MMixed}, false, args, rep, pg);
+                tsmSpace<3>(2, 0, 0, {MCentre, MTwo, MVaried}, false, args, rep, pg);
+                tsmSpace<1>(4, 0, 0, {MCentre, MTwo, MVaried}, true, args, rep, pg);
             }
         }
 #endif
